@@ -65,11 +65,10 @@ def quick_grid():
             Config('avx', 'c++14', '-O3'), Config('avx2', 'c++17', '-O2'), Config('avx512', 'c++14', '-O2')]
 
 def thorough_grid():
+    """every ISA under three (standard, optimisation) combinations: C++14 -O2, C++17 -O3, and -O0 with the standard alternating"""
     g = []
-    for isa in ISAS:
-        for std in ('c++14', 'c++17'):
-            for opt in ('-O0', '-O2', '-O3'):
-                g.append(Config(isa, std, opt))
+    for k, isa in enumerate(ISAS):
+        g += [Config(isa, 'c++14', '-O2'), Config(isa, 'c++17', '-O3'), Config(isa, 'c++17' if k % 2 == 0 else 'c++14', '-O0')]
     return g
 
 def tier():
